@@ -50,7 +50,9 @@ var c09Calls = []mc.Call{
 	{"k@num", func() string {
 		return c09Sorted("k@num", kv("k", "10"), kv("k", "9"), kv("k", "1Ki"), kv("k", "1k"), kv("k", "1.5M"), kv("k", "NaN"), kv("k", "x"), kv("k", "2GiB"))
 	}},
-	{"k@(b a)", func() string { return c09Sorted("k@(b a),j", kv("k", "a", "j", "1"), kv("k", "b", "j", "2"), kv("k", "b", "j", "1")) }},
+	{"k@(b a)", func() string {
+		return c09Sorted("k@(b a),j", kv("k", "a", "j", "1"), kv("k", "b", "j", "2"), kv("k", "b", "j", "1"))
+	}},
 	{".config", func() string { return c09Sorted(".config", kv("k", "z"), kv("k", "a", "j", "1"), kv("j", "2"), kv()) }},
 	{".config,.name@alpha", func() string {
 		return c09Sorted(".config,.name@alpha", kv("k", "z"), presult{Name: "A", Units: []string{"u"}}, kv("k", "a", "j", "1"), presult{Name: "B", Units: []string{"u"}})
